@@ -1074,7 +1074,12 @@ def _scenario(seed: int, kind: str):
         S(id=t6, op="filter", src=t5, preds=[{"fn": "greater_than", "args": [{"col": [a.tid, "id"]}, {"lit": 0}]}])
         t7 = g.fresh_t()
         S(id=t7, op="mutate", src=t6, cols=[["old_a", {"col": [a.tid, "a"]}], ["new_a", {"c": "a"}], ["old_b", {"col": [a.tid, "b"]}]])
-        S(id="x1", op="export", src=t7, target="polars", ordered=True)
+        last = t7
+        if r.random() < 0.5:
+            # overwrite the overwritten name once more above the subquery (the visible column must be the one replaced: D67)
+            last = g.fresh_t()
+            S(id=last, op="mutate", src=t7, cols=[["a", {"fn": "add", "args": [{"col": [a.tid, "a"]}, {"lit": 100}]}], ["a_seen", {"c": "a"}]])
+        S(id="x1", op="export", src=last, target="polars", ordered=True)
     elif kind == "scen_summarize_key":
         a = table("src0", [("a", "int"), ("b", "string"), ("x", "int")])
         t1, t2 = g.fresh_t(), g.fresh_t()
